@@ -1732,3 +1732,274 @@ func init() {
 		return nil
 	})
 }
+
+// ---------------------------------------------------------------- operators (C27)
+
+func namedConsts(p *packages.Package, typeName string) (names []string, vals map[string]int64) {
+	vals = map[string]int64{}
+	scope := p.Types.Scope()
+	for _, n := range scope.Names() {
+		c, ok := scope.Lookup(n).(*types.Const)
+		if !ok {
+			continue
+		}
+		nt, ok := c.Type().(*types.Named)
+		if !ok || nt.Obj().Name() != typeName || nt.Obj().Pkg() != p.Types {
+			continue
+		}
+		v, ok := constant.Int64Val(c.Val())
+		if !ok {
+			continue
+		}
+		names = append(names, n)
+		vals[n] = v
+	}
+	sort.Slice(names, func(i, j int) bool { return vals[names[i]] < vals[names[j]] })
+	return
+}
+
+func coqBytesPairList(b *bytes.Buffer, name, comment string, rows [][2]string) {
+	fmt.Fprintf(b, "(* %s *)\nDefinition %s : list (list N * N) := [", comment, name)
+	for i, r := range rows {
+		if i > 0 {
+			b.WriteString(";")
+		}
+		fmt.Fprintf(b, "\n  (%s, %s)", coqBytes(r[0]), r[1])
+	}
+	b.WriteString("].\n\n")
+}
+
+func init() {
+	register("Facts_AstOps", func(w *world, b *bytes.Buffer) error {
+		ap := w.pkg("ast")
+		cp := w.pkg("internal/compiler")
+		names, vals := namedConsts(ap, "OperatorType")
+		if len(names) == 0 {
+			return fmt.Errorf("ast.OperatorType constants not found")
+		}
+		// OperatorType.String: the string table it indexes
+		sm := findMethod(ap, "OperatorType", "String")
+		if sm == nil {
+			return fmt.Errorf("ast.OperatorType.String not found")
+		}
+		var table []string
+		ast.Inspect(sm.Body, func(n ast.Node) bool {
+			ix, ok := n.(*ast.IndexExpr)
+			if !ok {
+				return true
+			}
+			cl, ok := ix.X.(*ast.CompositeLit)
+			if !ok {
+				return true
+			}
+			for _, e := range cl.Elts {
+				tv := ap.TypesInfo.Types[e]
+				if tv.Value == nil || tv.Value.Kind() != constant.String {
+					panic("OperatorType.String: non constant table entry")
+				}
+				table = append(table, constant.StringVal(tv.Value))
+			}
+			return false
+		})
+		if table == nil {
+			return fmt.Errorf("ast.OperatorType.String: string table not found")
+		}
+		fmt.Fprintf(b, "(* ast.OperatorType constants *)\nDefinition gen_op_names : list (N * list N) := [")
+		for i, n := range names {
+			if i > 0 {
+				b.WriteString(";")
+			}
+			fmt.Fprintf(b, "\n  (%d, %s)", vals[n], coqBytes(n))
+		}
+		b.WriteString("].\n\n")
+		fmt.Fprintf(b, "(* ast.OperatorType.String *)\nDefinition gen_op_string : list (N * list N) := [")
+		for i, n := range names {
+			v := vals[n]
+			if int(v) >= len(table) {
+				return fmt.Errorf("OperatorType.String: %s (%d) is outside the table of %d entries", n, v, len(table))
+			}
+			if i > 0 {
+				b.WriteString(";")
+			}
+			fmt.Fprintf(b, "\n  (%d, %s)", v, coqBytes(table[v]))
+		}
+		b.WriteString("].\n\n")
+		// precedences, by evaluating the Precedence methods
+		bm := findMethod(ap, "BinaryOperator", "Precedence")
+		um := findMethod(ap, "UnaryOperator", "Precedence")
+		if bm == nil || um == nil {
+			return fmt.Errorf("Precedence methods not found")
+		}
+		recvName := func(fd *ast.FuncDecl) string { return fd.Recv.List[0].Names[0].Name }
+		fmt.Fprintf(b, "(* ast.BinaryOperator.Precedence, for the operators on which it returns *)\nDefinition gen_bin_prec : list (N * N) := [")
+		first := true
+		for _, n := range names {
+			e := newEnv(ap)
+			e.byname[recvName(bm)+".Op"] = constant.MakeInt64(vals[n])
+			if k := e.run(bm.Body.List); k == stopReturn && len(e.ret) == 1 && e.ret[0] != nil {
+				if !first {
+					b.WriteString(";")
+				}
+				first = false
+				fmt.Fprintf(b, " (%d, %d)", vals[n], i64(e.ret[0]))
+			}
+		}
+		b.WriteString("].\n\n")
+		{
+			e := newEnv(ap)
+			if k := e.run(um.Body.List); k != stopReturn || len(e.ret) != 1 || e.ret[0] == nil {
+				return fmt.Errorf("UnaryOperator.Precedence is not a constant")
+			}
+			fmt.Fprintf(b, "(* ast.UnaryOperator.Precedence *)\nDefinition gen_un_prec : N := %d.\n\n", i64(e.ret[0]))
+		}
+		// the parser: tokens accepted as unary / binary operators by parseExpr and the operator each yields
+		tnames, tvals := namedConsts(cp, "tokenTyp")
+		_ = tnames
+		tstr := map[string]string{}
+		if init := findVarInit(cp, "tokenString"); init != nil {
+			if cl, ok := init.(*ast.CompositeLit); ok {
+				for _, e := range cl.Elts {
+					kv := e.(*ast.KeyValueExpr)
+					tv := cp.TypesInfo.Types[kv.Value]
+					if id, ok := kv.Key.(*ast.Ident); ok && tv.Value != nil {
+						tstr[id.Name] = constant.StringVal(tv.Value)
+					}
+				}
+			}
+		}
+		if len(tstr) == 0 {
+			return fmt.Errorf("compiler.tokenString not found")
+		}
+		pe := findMethod(cp, "parsing", "parseExpr")
+		oft := mustFunc(cp, "operatorFromTokenType")
+		if pe == nil {
+			return fmt.Errorf("compiler.parsing.parseExpr not found")
+		}
+		opName := map[int64]string{}
+		for _, n := range names {
+			opName[vals[n]] = n
+		}
+		collect := func(binary bool) ([][2]string, error) {
+			var rows [][2]string
+			var err error
+			found := false
+			ast.Inspect(pe.Body, func(n ast.Node) bool {
+				cc, ok := n.(*ast.CaseClause)
+				if !ok {
+					return true
+				}
+				has := false
+				for _, s := range cc.Body {
+					ast.Inspect(s, func(m ast.Node) bool {
+						if _, nested := m.(*ast.CaseClause); nested {
+							return false
+						}
+						if c, ok := m.(*ast.CallExpr); ok {
+							if id, ok := c.Fun.(*ast.Ident); ok && id.Name == "operatorFromTokenType" && len(c.Args) == 2 {
+								if a, ok := c.Args[1].(*ast.Ident); ok && a.Name == fmt.Sprint(binary) {
+									has = true
+								}
+							}
+						}
+						return true
+					})
+				}
+				if !has {
+					return true
+				}
+				found = true
+				for _, te := range cc.List {
+					id, ok := te.(*ast.Ident)
+					if !ok {
+						err = fmt.Errorf("parseExpr: non identifier case")
+						return false
+					}
+					r, ok := callFunc(cp, oft, []constant.Value{constant.MakeInt64(tvals[id.Name]), constant.MakeBool(binary)}, 0)
+					if !ok || len(r) != 1 {
+						err = fmt.Errorf("operatorFromTokenType(%s, %v) not evaluable", id.Name, binary)
+						return false
+					}
+					sp, ok := tstr[id.Name]
+					if !ok {
+						err = fmt.Errorf("tokenString[%s] not found", id.Name)
+						return false
+					}
+					rows = append(rows, [2]string{sp, fmt.Sprint(i64(r[0]))})
+				}
+				return true
+			})
+			if err == nil && !found {
+				err = fmt.Errorf("parseExpr: no case calls operatorFromTokenType(tok.typ, %v)", binary)
+			}
+			return rows, err
+		}
+		un, err := collect(false)
+		if err != nil {
+			return err
+		}
+		bin, err := collect(true)
+		if err != nil {
+			return err
+		}
+		// the two operators that parseExpr builds without operatorFromTokenType
+		special := func(opConst string) (string, error) {
+			var toks []string
+			ast.Inspect(pe.Body, func(n ast.Node) bool {
+				cc, ok := n.(*ast.CaseClause)
+				if !ok {
+					return true
+				}
+				mentions := false
+				for _, s := range cc.Body {
+					ast.Inspect(s, func(m ast.Node) bool {
+						if _, nested := m.(*ast.CaseClause); nested {
+							return false
+						}
+						if se, ok := m.(*ast.SelectorExpr); ok && se.Sel.Name == opConst {
+							mentions = true
+						}
+						return true
+					})
+				}
+				if mentions && toks == nil {
+					for _, te := range cc.List {
+						if id, ok := te.(*ast.Ident); ok {
+							toks = append(toks, id.Name)
+						}
+					}
+				}
+				return true
+			})
+			if toks == nil {
+				return "", fmt.Errorf("parseExpr: no case builds ast.%s", opConst)
+			}
+			return strings.Join(toks, ","), nil
+		}
+		rt, err := special("OperatorReceive")
+		if err != nil {
+			return err
+		}
+		if !strings.Contains(","+rt+",", ",tokenArrow,") {
+			return fmt.Errorf("parseExpr: OperatorReceive is not built under tokenArrow (%s)", rt)
+		}
+		un = append(un, [2]string{tstr["tokenArrow"], fmt.Sprint(vals["OperatorReceive"])})
+		nt, err := special("OperatorNotContains")
+		if err != nil {
+			return err
+		}
+		if !strings.Contains(","+nt+",", ",tokenExtendedNot,") {
+			return fmt.Errorf("parseExpr: OperatorNotContains is not built under tokenExtendedNot (%s)", nt)
+		}
+		bin = append(bin, [2]string{tstr["tokenExtendedNot"] + " " + tstr["tokenContains"], fmt.Sprint(vals["OperatorNotContains"])})
+		coqBytesPairList(b, "gen_unary_tokens", "parseExpr: spelling of the tokens accepted where an operand is expected -> the unary operator built (tokenString, operatorFromTokenType(tok, false); <- under tokenArrow)", un)
+		coqBytesPairList(b, "gen_binary_tokens", "parseExpr: spelling of the tokens accepted after an operand -> the binary operator built (operatorFromTokenType(tok, true); `not` followed by `contains`)", bin)
+		for _, n := range []string{"OperatorReceive", "OperatorExtendedNot", "OperatorNotContains", "OperatorPointer"} {
+			v, ok := vals[n]
+			if !ok {
+				return fmt.Errorf("ast.%s not found", n)
+			}
+			fmt.Fprintf(b, "Definition gen_%s : N := %d.\n", n, v)
+		}
+		return nil
+	})
+}
